@@ -146,6 +146,8 @@ pub fn record_artifacts(
                                 "non unique stripped path {virtual_target_path}"
                             )));
                         }
+                        #[cfg(in_toto_verif)]
+                        crate::verif::emit(serde_json::json!({"ev": "recorded", "path": path, "key": virtual_target_path, "via": "symlink"}));
                         artifacts.insert(virtual_target_path, hashes);
                     }
                 }
@@ -159,6 +161,8 @@ pub fn record_artifacts(
                         "non unique stripped path {virtual_target_path}"
                     )));
                 }
+                #[cfg(in_toto_verif)]
+                crate::verif::emit(serde_json::json!({"ev": "recorded", "path": path, "key": virtual_target_path, "via": "file"}));
                 artifacts.insert(virtual_target_path, hashes);
             }
         }
@@ -310,6 +314,8 @@ pub fn in_toto_run(
 
     // Execute commands provided in cmd_args
     let byproducts = run_command(cmd_args, run_dir)?;
+    #[cfg(in_toto_verif)]
+    crate::verif::emit(serde_json::json!({"ev": "command_done", "name": name}));
 
     // Record Products: Given the product_paths, recursively traverse and record files in given path(s)
     let products =
